@@ -1,9 +1,7 @@
 import Verif.Props.C04
 open Verif.Props.C04
 #print axioms four_sides_ok
-#print axioms zero_unit_partial
-#print axioms zero_unit_counterexample_angle
-#print axioms zero_unit_counterexample_math
+#print axioms zero_unit_ok
 #print axioms zero_unit_kept
 #print axioms color_ok_partial
 #print axioms color_counterexample
